@@ -10,8 +10,8 @@
 
 enum vstate { ST_IDLE = 0, ST_OWNER, ST_FETCHER, ST_CALLER, ST_OWNER_INFLIGHT, ST_SELF, ST_BUFFERED, ST_RICH, ST_PARTIAL_MSG, ST_PARTIAL_HTTP, ST_CALLER_ORPHAN, ST_OWNER_FULL, NSTATES };
 static const char *const STN[] = {"idle", "owns-2-elements", "holds-2-fetches", "caller-in-flight", "owner-with-2-requests-in-flight", "caller-and-owner-of-same-request", "unsent-buffered-output", "everything-at-once", "mid-message", "mid-http-upgrade", "caller-in-flight-to-owner-that-removed-its-last-element", "owner-whose-write-buffer-is-full-so-that-a-request-could-not-be-forwarded"};
-enum ending { E_FIN = 0, E_RST_EPOLL, E_RST_READ, E_RST_WRITE, E_OVERSIZE, E_BADJSON, E_WS_UNMASKED, E_WS_CLOSE, E_WS_RSV, NENDINGS };
-static const char *const ENDN[] = {"client-FIN", "reset(epoll ERR|HUP)", "reset(seen by read)", "reset(seen by writev)", "oversize-length", "invalid-JSON", "ws-unmasked-frame", "ws-close-frame", "ws-reserved-bit"};
+enum ending { E_FIN = 0, E_RST_EPOLL, E_RST_READ, E_RST_WRITE, E_OVERSIZE, E_BADJSON, E_WS_UNMASKED, E_WS_CLOSE, E_WS_RSV, E_WS_CLOSE_EMPTY, E_WS_EMPTY_BINARY, NENDINGS };
+static const char *const ENDN[] = {"client-FIN", "reset(epoll ERR|HUP)", "reset(seen by read)", "reset(seen by writev)", "oversize-length", "invalid-JSON", "ws-unmasked-frame", "ws-close-frame", "ws-reserved-bit", "ws-close-frame-without-status", "ws-empty-binary-frame"};
 enum moment { M_ALONE = 0, M_WITH_MSG_FIRST, M_WITH_MSG_AFTER, M_WITH_TIMER_FIRST, M_WITH_TIMER_AFTER, NMOMENTS };
 static const char *const MOMN[] = {"alone", "same-batch-as-bystander-message(victim-first)", "same-batch-as-bystander-message(victim-last)", "same-batch-as-its-request-expiry(victim-first)", "same-batch-as-its-request-expiry(victim-last)"};
 enum vtrans { T_RAW = 0, T_UDS, T_WS, NTRANS };
@@ -274,7 +274,7 @@ static void run(void)
 	int late_sub = xp_choose(2, XP_SCENARIO, "late-subscriber");
 	bool is_ws = tr == T_WS;
 	/* applicability */
-	if ((en == E_WS_UNMASKED || en == E_WS_CLOSE || en == E_WS_RSV) && !is_ws) {
+	if ((en == E_WS_UNMASKED || en == E_WS_CLOSE || en == E_WS_RSV || en == E_WS_CLOSE_EMPTY || en == E_WS_EMPTY_BINARY) && !is_ws) {
 		xp_end_run();
 	}
 	if (st == ST_PARTIAL_HTTP && !is_ws) {
@@ -470,6 +470,22 @@ static void run(void)
 		bb_free(&f);
 		break;
 	}
+	case E_WS_CLOSE_EMPTY: {
+		/* a close frame without status code: payload length 0 - nothing follows the masking key */
+		struct bytebuf f = {0};
+		cl_frame_ws(&f, 8, true, 0, true, 0, "", 0);
+		sim_client_send(V, f.p, f.len);
+		bb_free(&f);
+		break;
+	}
+	case E_WS_EMPTY_BINARY: {
+		/* binary data is not accepted on this endpoint: the daemon ends the connection - on a frame of length 0 */
+		struct bytebuf f = {0};
+		cl_frame_ws(&f, 2, true, 0, true, 0, "", 0);
+		sim_client_send(V, f.p, f.len);
+		bb_free(&f);
+		break;
+	}
 	case E_WS_RSV: {
 		struct bytebuf f = {0};
 		cl_frame_ws(&f, 1, true, 4, true, 0, "{}", 2);
@@ -646,6 +662,6 @@ const struct driver drv_c05 = {
     .name = "c05",
     .property = "C05",
     .run = run,
-    .rule = "product of 12 victim protocol states (owner that stopped reading with a full write buffer so that calls to its method could not be forwarded, caller in flight to an owner that removed its last element meanwhile, idle, owning elements, holding fetches, caller in flight, owner with 2 requests in flight, caller and owner of the same request, unsent buffered output, all at once, mid message at every byte position, mid HTTP upgrade at every byte position) x 3 transports (tcp, unix socket, websocket) x 9 endings (FIN, reset seen by epoll / read / writev, oversize length, invalid JSON, ws unmasked frame, ws close frame, ws reserved bit) x {no further subscriber, a websocket subscriber that arrived after the victim} x 5 moments (alone; in the same harvested batch as a bystander's message or as the expiry of one of its requests, victim dispatched first / last); inapplicable combinations end at once; non-trivial = applicable combinations run to the end | section 1: 3 transports x failing allocation n = 1..40 while the daemon sets the new connection up (runs in which no allocation failed end at once) x 4 continuations (a new peer of the same kind connects, adds and leaves; a bystander with a request in flight leaves; a new subscriber fetches and unfetches; two peers connect, add and leave): the bystanders work as before, peer count, descriptors, timers and heap return, clean exit",
+    .rule = "product of 12 victim protocol states (owner that stopped reading with a full write buffer so that calls to its method could not be forwarded, caller in flight to an owner that removed its last element meanwhile, idle, owning elements, holding fetches, caller in flight, owner with 2 requests in flight, caller and owner of the same request, unsent buffered output, all at once, mid message at every byte position, mid HTTP upgrade at every byte position) x 3 transports (tcp, unix socket, websocket) x 11 endings (FIN, reset seen by epoll / read / writev, oversize length, invalid JSON, ws unmasked frame, ws close frame with and without status code, ws reserved bit, ws empty binary frame) x {no further subscriber, a websocket subscriber that arrived after the victim} x 5 moments (alone; in the same harvested batch as a bystander's message or as the expiry of one of its requests, victim dispatched first / last); inapplicable combinations end at once; non-trivial = applicable combinations run to the end | section 1: 3 transports x failing allocation n = 1..40 while the daemon sets the new connection up (runs in which no allocation failed end at once) x 4 continuations (a new peer of the same kind connects, adds and leaves; a bystander with a request in flight leaves; a new subscriber fetches and unfetches; two peers connect, add and leave): the bystanders work as before, peer count, descriptors, timers and heap return, clean exit",
     .assumptions = "heap is compared at the idle baseline after everybody left",
 };
